@@ -14,7 +14,7 @@ ASCII = "AZaz09 _-"
 LATIN = ASCII + "éßÄ"
 UTF8 = ASCII + "é€中"
 # (U+0100, U+00FF and U+FF21 make 00 00 / FF FF byte pairs that straddle two code units: not terminators)
-UCS2 = "Az0é€中Āÿ\uff21\U0001F600"
+UCS2 = "AzĀ0éĀA€中Āÿ\uff21ÿ\U0001F600"
 
 
 class G:
